@@ -23,6 +23,13 @@ class DatetimeV:
         self.epoch = epoch
 
 
+class PartialV:
+    """functools.partial(f, **kw)"""
+
+    def __init__(self, fn, args, kw):
+        self.fn, self.args, self.kw = fn, list(args), dict(kw)
+
+
 class SuccessV:
     def __init__(self, val):
         self.val = val
@@ -115,6 +122,11 @@ def call_builtin(ex, name, args, kw, st, where, env):
             return
         if isinstance(x, Sym) and x.ty in (IntT, RealT):
             yield Sym(RealT, coerce(x, RealT)), st
+            return
+        if isinstance(x, Sym) and x.ty is StrT:
+            # parsing text: either ValueError or some number (an uninterpreted function of the text)
+            yield Raised(ExcVal("ValueError"), where), st
+            yield ex.uf_apply("float_of_str", [x], RealT), st
             return
         raise PyvcUnsupported("float() of non-number")
     if name == "bool":
@@ -270,6 +282,9 @@ def call_builtin(ex, name, args, kw, st, where, env):
     if name in ("reduce", "functools.reduce", "ft.reduce"):
         yield from reduce_(ex, args, st, where, env)
         return
+    if name in ("partial", "functools.partial", "ft.partial"):
+        yield PartialV(args[0], args[1:], kw), st
+        return
     if name in ("uuid4", "uuid.uuid4"):
         u = fresh(AbstractTy("UUID"), "uuid")
         ex.fresh_uuids.append(u.e)
@@ -392,9 +407,12 @@ def reduce_(ex, args, st, where, env=None):
     yield from go(0, init, st)
 
 
-def call_ordinal(ex, where, names):
+def call_ordinal(ex, where, names, env=None):
     """ordinal of the call at line `where` among the calls to `names` in the function under verification"""
-    fn, _, _ = ex.repo.func(ex.cur_key)
+    try:
+        fn, _, _ = ex.repo.func(ex.loop_key(env))
+    except KeyError:
+        return None
     calls = sorted({(c.lineno, c.col_offset) for c in ast.walk(fn) if isinstance(c, ast.Call)
                     and ((isinstance(c.func, ast.Attribute) and c.func.attr in names) or (isinstance(c.func, ast.Name) and c.func.id in names))})
     for k, (ln, _) in enumerate(calls):
@@ -413,12 +431,15 @@ def fold_contract(ex, f, xs, init, st, where, env=None):
         for u, st2 in ex.enumerate_unordered(xs, st, where):
             yield from fold_contract(ex, f, u, init, st2, where, env)
         return
+    ordinal = call_ordinal(ex, where, ("reduce",), env)
+    spec = ex.loop_specs.get((ex.loop_key(env), "reduce", ordinal))
+    if spec is not None and "abstract_seq" in spec and isinstance(xs, Sym) and isinstance(xs.ty, AbstractTy):
+        # an opaque iterator (file reader): some finite sequence of rows, unknown to the caller
+        xs = fresh(spec["abstract_seq"], "rows")
     if not (isinstance(xs, Sym) and isinstance(xs.ty, SeqTy)):
         raise PyvcUnsupported(f"reduce over {xs!r}")
-    ordinal = call_ordinal(ex, where, ("reduce",))
-    spec = ex.loop_specs.get((ex.cur_key, "reduce", ordinal))
     if spec is None:
-        raise PyvcUnsupported(f"reduce #{ordinal} over a symbolic sequence at line {where} of {ex.cur_key} needs a fold contract")
+        raise PyvcUnsupported(f"reduce #{ordinal} over a symbolic sequence at line {where} of {ex.loop_key(env)} needs a fold contract")
     inv0, props = spec["invariant"], spec.get("props", ())
     from .spec import NS as _NS
     if inv0.__code__.co_argcount == 4:
@@ -503,6 +524,7 @@ def sorted_(ex, args, kw, st, where):
         xm = z3.Const(fresh_name("xm"), et.sort)
         facts.append(mem_all_indices(r))
         facts.append(z3.ForAll([xm], seq_mem_z3(r, xm) == seq_mem_z3(u.e, xm)))
+        facts.append(mem_has_position(r, et.sort))
         ex.sort_sites.append({"function": ex.cur_key, "line": where, "key_i": ki, "key_j": kj, "i": i, "j": j,
                               "r": Sym(u.ty, r), "from_unordered": distinct})
         yield Sym(u.ty, r), st_u.assume(*facts)
@@ -790,6 +812,9 @@ def call_method(ex, recv, name, args, kw, st, where):
                 o = Sym(t, coerce(list(xs), t)) if xs else Sym(t, t.empty())
             if isinstance(o, EmptyColl):
                 o = Sym(t, t.empty())
+            if isinstance(o, MapView) and o.kind == "keys":
+                kq = z3.Const(fresh_name("k"), t.elem.sort)
+                o = Sym(t, z3.Lambda([kq], o.coll.ty.opt.is_some(z3.Select(o.coll.e, kq))))
             if isinstance(o, Sym) and isinstance(o.ty, SetTy):
                 k = z3.Const(fresh_name("k"), t.elem.sort)
                 a, b = z3.Select(recv.e, k), z3.Select(o.e, k)
@@ -865,6 +890,11 @@ def abstract_method(ex, recv, name, args, kw, st, where):
             zargs.append(a)
         elif a is None:
             raise PyvcUnsupported(f"None passed to abstract method {base}.{name}")
+        elif type(a).__name__ in ("FuncV", "BoundM", "PartialV"):
+            # a callable passed to an abstract object: the result is an arbitrary value of the declared type
+            from .spec import fresh_value
+            yield fresh_value(ret, f"havoc_{base}_{name}"), st
+            return
         else:
             zargs.append(lift(a))
     r = ex.uf_apply(f"{base}.{name}", [recv] + zargs, ret)
